@@ -261,6 +261,13 @@ func (p *Parser) parseIndexExpression(left Expression) Expression {
 
 	p.nextToken()
 
+	if p.curToken.Type != IDENT {
+		msg := fmt.Sprintf("expected an identifier after %s, got %s instead", expression.Token.Literal, p.curToken.Type)
+		p.errors = append(p.errors, msg)
+
+		return nil
+	}
+
 	expression.Index = p.parseIdentifier()
 
 	if expression.Token.Type == DOT {
@@ -334,6 +341,20 @@ func (p *Parser) ParseUpdateExpression() *UpdateStatement {
 	stmt := &UpdateStatement{Token: p.curToken}
 
 	for p.curToken.Type != EOF {
+		if stmt.Expression != nil {
+			// the update clauses were already parsed up to the end of the input
+			unexpected := p.curToken.Literal
+
+			p.parseExpression(precedenceValueLowset)
+
+			if len(p.errors) == 0 {
+				msg := fmt.Sprintf("Syntax error; unexpected token: %q", unexpected)
+				p.errors = append(p.errors, msg)
+			}
+
+			return stmt
+		}
+
 		stmt.Expression = p.parseExpression(precedenceValueLowset)
 
 		p.nextToken()
@@ -405,6 +426,11 @@ func (p *Parser) parseActions(token Token) []Expression {
 
 		otherUpdate := p.parseUpdateActionExpression()
 		if updateExpression, ok := otherUpdate.(*UpdateExpression); ok {
+			if len(updateExpression.Expressions) == 0 && len(p.errors) == 0 {
+				msg := fmt.Sprintf("%s expression must have at least one action", updateExpression.TokenLiteral())
+				p.errors = append(p.errors, msg)
+			}
+
 			actions = append(actions, updateExpression.Expressions...)
 		}
 	}
